@@ -40,7 +40,7 @@ type TaskRunner struct {
 	cancelFunc  context.CancelFunc
 	cancelMutex sync.RWMutex
 	canceling   bool
-	doneCh      chan struct{}
+	inflight    sync.WaitGroup
 
 	compiler *TaskCompiler
 
@@ -61,7 +61,6 @@ func NewTaskRunner(opts ...Opts) (*TaskRunner, error) {
 		Stderr:       os.Stderr,
 		variables:    variables.NewVariables(),
 		env:          variables.NewVariables(),
-		doneCh:       make(chan struct{}, 1),
 	}
 
 	r.ctx, r.cancelFunc = context.WithCancel(context.Background())
@@ -92,13 +91,16 @@ func (r *TaskRunner) SetVariables(vars variables.Container) *TaskRunner {
 // Run run provided task.
 // TaskRunner first compiles task into linked list of Jobs, then passes those jobs to Executor
 func (r *TaskRunner) Run(t *task.Task) error {
-	defer func() {
-		r.cancelMutex.RLock()
-		if r.canceling {
-			close(r.doneCh)
-		}
+	// a run registers itself unless cancellation has begun; Cancel waits for
+	// every registered run, however many there are
+	r.cancelMutex.RLock()
+	if r.canceling {
 		r.cancelMutex.RUnlock()
-	}()
+		return r.ctx.Err()
+	}
+	r.inflight.Add(1)
+	r.cancelMutex.RUnlock()
+	defer r.inflight.Done()
 
 	if err := r.ctx.Err(); err != nil {
 		return err
@@ -188,7 +190,7 @@ func (r *TaskRunner) Cancel() {
 		r.cancelFunc()
 	}
 	r.cancelMutex.Unlock()
-	<-r.doneCh
+	r.inflight.Wait()
 }
 
 // Finish makes cleanup tasks over contexts
